@@ -36,6 +36,7 @@ func (k kind) String() string {
 type node struct {
 	K    kind
 	S    string   // scalar text: the string, the number literal, "true"/"false", "null"
+	YS   string   // kNum only, optional: how the YAML spelling writes the number (.5 for 0.5, +5 for 5)
 	Keys []string // kMap: keys, parallel to Kids
 	Kids []*node  // kMap: values; kSeq: items
 }
@@ -55,7 +56,7 @@ func mapping(kv ...any) *node {
 func sequence(items ...*node) *node { return &node{K: kSeq, Kids: items} }
 
 func (n *node) clone() *node {
-	c := &node{K: n.K, S: n.S}
+	c := &node{K: n.K, S: n.S, YS: n.YS}
 	if n.Keys != nil {
 		c.Keys = append([]string{}, n.Keys...)
 	}
@@ -392,6 +393,9 @@ func toYAML(n *node, depth int, selfKey string, plainCodes bool) *yaml3.Node {
 		return yamlStr(n.S)
 	default:
 		// plain scalar, verbatim (numbers keep their literal: 1e400, 99999999999999999999)
+		if n.K == kNum && n.YS != "" {
+			return &yaml3.Node{Kind: yaml3.ScalarNode, Value: n.YS}
+		}
 		return &yaml3.Node{Kind: yaml3.ScalarNode, Value: n.S}
 	}
 }
@@ -473,8 +477,16 @@ func indexDoc(text []byte, tree *node) (*docIndex, error) {
 				return fmt.Errorf("at %v: want string %q, got %q (tag %s, style %d)", path, clip(n.S, 40), clip(y.Value, 40), y.ShortTag(), y.Style)
 			}
 		default:
-			if y.Kind != yaml3.ScalarNode || y.Value != n.S || y.Style&(yaml3.DoubleQuotedStyle|yaml3.SingleQuotedStyle|yaml3.LiteralStyle|yaml3.FoldedStyle) != 0 {
+			if y.Kind != yaml3.ScalarNode || (y.Value != n.S && !(n.K == kNum && n.YS != "" && y.Value == n.YS)) || y.Style&(yaml3.DoubleQuotedStyle|yaml3.SingleQuotedStyle|yaml3.LiteralStyle|yaml3.FoldedStyle) != 0 {
 				return fmt.Errorf("at %v: want plain %s %q, got %q (style %d)", path, n.K, n.S, y.Value, y.Style)
+			}
+			if n.K == kNum && n.YS != "" && y.Value == n.YS {
+				// harness self-check: the YAML-only spelling denotes the number the JSON spelling writes
+				a, errA := strconv.ParseFloat(n.S, 64)
+				b, errB := strconv.ParseFloat(strings.TrimPrefix(n.YS, "+"), 64)
+				if errA != nil || errB != nil || a != b || (y.ShortTag() != "!!float" && y.ShortTag() != "!!int") {
+					return fmt.Errorf("at %v: YAML spelling %q (tag %s) is not the number %q", path, n.YS, y.ShortTag(), n.S)
+				}
 			}
 		}
 		return nil
